@@ -26,7 +26,8 @@ RULE = ("job = seed -> (scenario: version x flavour x options; op script: "
         "coalesced in flight).  distinct = digest(scenario, script, mode, "
         "effective choice log); non-trivial = both handshakes ran to a result "
         "and at least one perturbation actually fired"
-        ' closeSocket=False (bidirectional close) is a scenario dimension.')
+        ' closeSocket=False (bidirectional close) is a scenario dimension.'
+        ' sync mode goes through the blocking entry points (handshakeServer, handshakeClient*(async_=False)); the server may be told the name it serves (sni).')
 LEVEL_TEXT = ("Seeded search over transport schedules: every run compares a "
               "perturbed execution (random recv/send sizes, would-blocks, "
               "delivery delays, step order, 1-byte I/O, blocking API on "
